@@ -241,6 +241,7 @@ pub fn c04_hypotheses(spec: &TxSpec) -> bool {
 }
 
 // ------------------------------------------------------------------------------------------------ eval
+#[derive(Clone)]
 pub struct Blinded { pub tx: Transaction, pub spent: Vec<TxOut>, pub secrets: Vec<TxOutSecrets>, pub blinds: Blinds }
 pub enum BlindRes { Ok(Blinded), Err(BlindError), Panic }
 pub fn run_blind(spec: &TxSpec, seed: [u8; 32]) -> BlindRes {
@@ -253,11 +254,22 @@ pub fn run_blind(spec: &TxSpec, seed: [u8; 32]) -> BlindRes {
     }
 }
 
+/// results computed while generating (the generator has to blind anyway to read back the randomness): `eval` of the very same
+/// case text returns them instead of blinding a second time; a replayed case is always computed from scratch
+pub static MEMO: std::sync::Mutex<Option<std::collections::HashMap<String, (String, Option<String>)>>> = std::sync::Mutex::new(None);
+pub fn memo_put(case: &str, o: &Out) { let mut g = MEMO.lock().unwrap(); g.get_or_insert_with(Default::default).insert(case.to_string(), (o.result.clone(), o.pred_fail.clone())); }
+pub fn memo_take(case: &str) -> Option<Out> { MEMO.lock().unwrap().as_mut().and_then(|m| m.remove(case)).map(|(result, pred_fail)| Out { result, pred_fail }) }
+
 fn eval_blind(case: &str) -> Out {
     let (spec, seed) = match (parse_spec(case), parse_seed(case)) { (Some(s), Some(d)) => (s, d), _ => return Out::ok("harnesserr parse".into()) };
+    let r = run_blind(&spec, seed);
+    finish_blind(case, &spec, r)
+}
+fn finish_blind(case: &str, spec: &TxSpec, r: BlindRes) -> Out {
+    let spec = spec.clone();
     let hyp = c04_hypotheses(&spec);
     let nmarked = spec.outs.iter().filter(|o| is_marked(o)).count();
-    match run_blind(&spec, seed) {
+    match r {
         BlindRes::Panic => {
             let pred_fail = if nmarked == 0 {
                 Some("F12-blind-nothing-marked|Transaction::blind panics (expect \"Internal output calculation error\") when no output is marked; BlindError::TooFewBlindingOutputs is never returned".to_string())
@@ -309,6 +321,7 @@ fn eval_blind(case: &str) -> Out {
 }
 
 pub fn eval(case: &str) -> Out {
+    if let Some(o) = memo_take(case) { return o; }
     let kind = case.split(' ').nth(1).unwrap_or("");
     match kind {
         "blind" => eval_blind(case),
@@ -423,12 +436,17 @@ pub fn shape_tags(spec: &TxSpec, tags: &mut Vec<String>) {
 }
 /// case text for a spec: blinds once with the real crate to read back the randomness it drew
 pub fn blind_case(spec: &TxSpec, seed: [u8; 32]) -> (String, bool) {
-    let (rnd, blinded) = match run_blind(spec, seed) {
+    let r = run_blind(spec, seed);
+    let (rnd, blinded) = match &r {
         BlindRes::Ok(b) => (rnd_of_blinds(&b.blinds), true),
         // on failure the draws are not observable; the model's outcome then does not depend on their values
         _ => ((0..3 * spec.outs.len() + 2).map(|k| format!("{:064x}", k + 1)).collect(), false),
     };
-    (format!("{} rnd={} seed={}", fmt_spec(spec), if rnd.is_empty() { "-".to_string() } else { rnd.join(",") }, hex(&seed)), blinded)
+    let text = format!("{} rnd={} seed={}", fmt_spec(spec), if rnd.is_empty() { "-".to_string() } else { rnd.join(",") }, hex(&seed));
+    let case = format!("C04 blind prof=d {}", text);
+    let o = finish_blind(&case, spec, r);
+    memo_put(&case, &o);
+    (text, blinded)
 }
 
 pub fn gen(rng: &mut ChaCha20Rng, n: usize, thorough: bool) -> Vec<Case> {
